@@ -86,6 +86,12 @@ pub fn gen_batches(r: &mut Rng, len: usize) -> Vec<Value> {
             } else if x < 95 {
                 req("Drop", d)
             } else if x < 98 {
+                if r.chance(1, 2) {
+                    // a listing (read snapshot in the store) immediately before the import, in the same batch
+                    let mut l = req("List", d);
+                    l["now"] = json!(now);
+                    reqs.push(l);
+                }
                 let mut q = req("Import", d);
                 q["kind"] = json!(if r.chance(1, 2) { "write" } else { "read" });
                 q
@@ -197,6 +203,20 @@ async fn exec(w: Arc<World>, h: SyncHandle, q: Value, sub: Option<async_channel:
             fin!(h.import_namespace(cap).await, |_| json!([]))
         }
         "ExportSecret" => fin!(h.export_secret_key(ns).await, |_| json!([])),
+        "List" => {
+            let (tx, mut rx) = irpc::channel::mpsc::channel(64);
+            match h.list_replicas(tx).await {
+                Err(err) => q["res"] = json!(anyhow_class(&err)),
+                Ok(()) => {
+                    let mut nn = 0;
+                    while let Ok(Some(_)) = rx.recv().await {
+                        nn += 1;
+                    }
+                    let _ = nn;
+                    ok(&mut q, json!([]));
+                }
+            }
+        }
         "Flush" => fin!(h.flush_store().await, |_| json!([])),
         other => panic!("unknown actor op {other}"),
     }
